@@ -10,6 +10,7 @@ import (
 
 	"github.com/ipfs/go-cid"
 	"github.com/ipld/go-ipld-prime"
+	"github.com/ipld/go-ipld-prime/codec/dagjson"
 
 	"github.com/ucan-wg/go-ucan/pkg/args"
 	"github.com/ucan-wg/go-ucan/pkg/command"
@@ -19,6 +20,7 @@ import (
 )
 
 type immWorld struct {
+	slicePol policy.Policy // a policy with a negative slice bound, shared by the Match operations
 	iss, aud *principal
 	dlg      *delegation.Token
 	dlgCid   cid.Cid
@@ -77,6 +79,22 @@ func newImmWorld(w *world, order []int, decoded bool) (*immWorld, error) {
 		}
 	}
 	iw.loader = mapLoader{id: iw.dlg}
+	// a second delegation, only used for matching data of different shapes against its policy
+	sp, _ := policy.FromDagJson(`[["==", ".l[-1:]", ["z"]], ["==", ".l[:-1][0:1]?", ["a"]]]`)
+	d2, err := delegation.New(iw.iss.id, iw.aud.id, command.MustParse("/x"), sp, delegation.WithSubject(iw.iss.id))
+	if err != nil {
+		return nil, err
+	}
+	if decoded {
+		b, _, err := d2.ToSealed(iw.iss.priv)
+		if err != nil {
+			return nil, err
+		}
+		if d2, _, err = delegation.FromSealed(b); err != nil {
+			return nil, err
+		}
+	}
+	iw.slicePol = d2.Policy()
 	return iw, nil
 }
 
@@ -195,6 +213,54 @@ var immOps = []immOp{
 		ok, _ := iw.dlg.Policy().Match(n)
 		return fmt.Sprint(ok)
 	}},
+	{"policy.Match(list of 3)", func(iw *immWorld) string {
+		n, _ := ipld.Decode([]byte(`{"l": ["a", "b", "z"]}`), dagjson.Decode)
+		ok, _ := iw.slicePol.Match(n)
+		return fmt.Sprint(ok)
+	}},
+	{"policy.Match(list of 1)", func(iw *immWorld) string {
+		n, _ := ipld.Decode([]byte(`{"l": ["z"]}`), dagjson.Decode)
+		ok, _ := iw.slicePol.Match(n)
+		return fmt.Sprint(ok)
+	}},
+	{"policy.Match(list of 2)", func(iw *immWorld) string {
+		n, _ := ipld.Decode([]byte(`{"l": ["a", "z"]}`), dagjson.Decode)
+		ok, _ := iw.slicePol.PartialMatch(n)
+		return fmt.Sprint(ok)
+	}},
+	{"WriteableClone+Add x2", func(iw *immWorld) string {
+		// two independent writable clones (what argument hooks do), each extended with its own key
+		c1 := iw.inv.Arguments().WriteableClone()
+		c2 := iw.inv.Arguments().WriteableClone()
+		e1 := c1.Add("extra-one", 1)
+		e2 := c2.Add("extra-two", 2)
+		k1, k2 := []string{}, []string{}
+		for k := range c1.Iter() {
+			k1 = append(k1, k)
+		}
+		for k := range c2.Iter() {
+			k2 = append(k2, k)
+		}
+		n1, _ := c1.ToIPLD()
+		n2, _ := c2.ToIPLD()
+		j1, _ := json.Marshal(jsonOf(n1))
+		j2, _ := json.Marshal(jsonOf(n2))
+		return fmt.Sprint(e1, e2, k1, k2, string(j1), string(j2))
+	}},
+	{"hook adds a key", func(iw *immWorld) string {
+		var seen []string
+		err := iw.inv.ExecutionAllowedWithArgsHook(iw.loader, func(a args.ReadOnly) (*args.Args, error) {
+			c := a.WriteableClone()
+			if err := c.Add("added-by-hook", 7); err != nil {
+				return nil, err
+			}
+			for k := range c.Iter() {
+				seen = append(seen, k)
+			}
+			return c, nil
+		})
+		return fmt.Sprint(err, seen)
+	}},
 	{"accessors", func(iw *immWorld) string {
 		return fmt.Sprint(iw.inv.Issuer(), iw.inv.Subject(), iw.inv.Command(), len(iw.inv.Proof()), len(iw.inv.Nonce()), iw.dlg.Audience(), iw.dlg.IsValidNow(), iw.inv.IsValidNow())
 	}},
@@ -219,7 +285,16 @@ func init() {
 		if n <= 0 {
 			nk = 4
 		}
-		for _, order := range perms(nk) {
+		orders := perms(nk)
+		if n <= 0 {
+			// key counts with spare slice capacity (5) as well: a sample of the 120 orders
+			for i, o := range perms(5) {
+				if i%10 == 0 {
+					orders = append(orders, o)
+				}
+			}
+		}
+		for _, order := range orders {
 			for _, decoded := range []bool{false, true} {
 				// run-alone results on a fresh world per operation
 				alone := map[string]string{}
@@ -266,6 +341,11 @@ func init() {
 		total := 0
 		for round := 0; round < n; round++ {
 			order := perms(4)[rng.Intn(24)]
+			if round%2 == 0 {
+				order = perms(3)[rng.Intn(6)]
+			} else if round%5 == 0 {
+				order = perms(5)[rng.Intn(120)]
+			}
 			decoded := rng.Intn(2) == 0
 			alone := map[string]string{}
 			for _, op := range immOps {
